@@ -7,6 +7,9 @@ import Deb822Verif.Model.RelLex
   returns a `PR`: the nodes it appended to the *current* builder branch, the errors it pushed, and
   the tokens left. `start_node(k) … finish_node()` is `PR.wrap k`; sequencing is `PR.andThen`.
 
+  Line numbers are those of commit afa5e0c; fix 3b0cae0 (epoch versions) inserted nine lines at 221, so
+  everything after `versionTok` is nine lines further down in the current file.
+
   Error messages are modelled as strings (exact, except the `{:?}` of a `(kind, text)` pair in
   `parse_entry`, whose text is not Rust-escaped here); only their number is observable.
 -/
@@ -213,20 +216,37 @@ theorem constraintLoop_ok (ts) : (constraintLoop ts).Ok ts := by
     simp only [Ok] at ih
     unfold constraintLoop; split <;> simp [Ok, ih]
 
-/-- relations.rs:205-236 -/
+/-- relations.rs:219-232 (after fix 3b0cae0): the version is `IDENT`, or `IDENT COLON IDENT` when it
+    has an epoch; a COLON not followed by IDENT is an error -/
+def versionTok (ts : List Tok) : PR :=
+  if cur ts = some .IDENT then
+    (bump1 ts).andThen fun ts =>
+      if cur ts = some .COLON then (bump1 ts).andThen (expect .IDENT "Expected version")
+      else PR.nil ts
+  else errorTok "Expected version" ts
+
+theorem versionTok_ok (ts) : (versionTok ts).Ok ts := by
+  unfold versionTok; split
+  · refine ok_andThen (bump1_ok _) fun x => ?_
+    split
+    · exact ok_andThen (bump1_ok _) (expect_ok _ _)
+    · exact ok_nil x
+  · exact errorTok_ok _ ts
+
+/-- relations.rs:205-245 -/
 def versionPart (ts : List Tok) : PR :=
   if peekPastWs ts = some .L_PARENS then
     (skipWs ts).andThen fun ts =>
       ((bump1 ts).andThen fun ts => (skipWs ts).andThen fun ts =>
         ((constraintLoop ts).wrap .CONSTRAINT).andThen fun ts => (skipWs ts).andThen fun ts =>
-        (expect .IDENT "Expected version" ts).andThen (expect .R_PARENS "Expected ')'")).wrap .VERSION
+        (versionTok ts).andThen (expect .R_PARENS "Expected ')'")).wrap .VERSION
   else PR.nil ts
 
 theorem versionPart_ok (ts) : (versionPart ts).Ok ts := by
   unfold versionPart; split
   · exact ok_andThen (skipWs_ok _) fun _ => ok_wrap _ (ok_andThen (bump1_ok _) fun _ =>
       ok_andThen (skipWs_ok _) fun _ => ok_andThen (ok_wrap _ (constraintLoop_ok _)) fun _ =>
-      ok_andThen (skipWs_ok _) fun _ => ok_andThen (expect_ok _ _ _) (expect_ok _ _))
+      ok_andThen (skipWs_ok _) fun _ => ok_andThen (versionTok_ok _) (expect_ok _ _))
   · exact ok_nil ts
 
 def archMsg : String := "Expected architecture name or '!' or ']'"
